@@ -377,7 +377,7 @@ def random_spec(rng, *, max_side=6, kmax=40, for_solver=False, frames=1, min_rid
         spec["orient"] = rng.choice(["ccw", "cw", "mixed"])
         spec["ids"] = rng.choice(["contig0", "contig1", "gaps", "shuffle"])
         if frames > 1:
-            spec["motion"] = {"amp": round(rng.choice([0.0, 0.004, 0.01]), 4),
+            spec["motion"] = {"amp": round(rng.choice([0.0, 0.004, 0.01, 0.01, 0.06]), 4),
                               "drift": [round(rng.uniform(-0.01, 0.01), 4), round(rng.uniform(-0.01, 0.01), 4)],
                               "stretch": round(rng.choice([0.0, 0.003, 0.008]), 4)}
         try:
